@@ -67,6 +67,8 @@ package fsim
 //@   local hashed = call:hash.Hash.Sum#1
 //@   props C17 C10(sweep)
 //@   sweep bounds,panic,make
+//@   callsites Header.Set 0
+//@   callsites Header.Add 0
 //@   callsites rename 1
 //@   callassert rename#1: @digest len(d.sha384) > 0 ==> bytes(d.sha384) == bytes(hashed)
 //@   callassert rename#1: @name len(d.name) > 0
